@@ -32,8 +32,8 @@ _GEN = ('one SplitMix64 state per stream; corpus first (unit right triangle + ra
         'planes), Ray3D::advance (t negative / zero / 1e-12..1e12), DistantSource3D::area. ')
 RULE = {
     'C02': 'pflat/C02flat: ' + _GEN + 'emphasis: 30% boundary, 5% pairs. non-trivial = a ray case (not a constructor/area case); distinct = distinct (op, object bits, ray bits)',
-    'C03': 'pflat/C03flat: same generator, emphasis 55% decision-boundary cases',
-    'C13': 'pflat/C13flat: same generator, emphasis 45% two-sided pairs, ops returning IntersectionInfo',
+    'C03': 'pflat/C03flat: same generator, emphasis 55% decision-boundary cases; thorough tier: also 1500 cases of the f32 build (correspondence only, no oracle)',
+    'C13': 'pflat/C13flat: same generator, emphasis 45% two-sided pairs, ops returning IntersectionInfo; thorough tier: also 1500 cases of the f32 build (correspondence only, no oracle)',
 }
 _ASSUME = [
     'pflat: Coq 8.16.1 kernel + vm_compute; theorems are about the real-number instance of the model (exact tier)',
@@ -45,7 +45,8 @@ _ASSUME = [
     'model followed by rounding to binary32; executed as NumF32fast, proved equal to the Flocq-rounded NumF32 in Run/FastNum32Proof.v) against the harness built with --features float; bit for bit except the libm-dependent fields (sinf / cosf / '
     'atan2f / acosf of the platform against the binary32 rounding of the software libm: 2^-20 = 8 ulp32; phi > phi_max decisions compared when the margin exceeds 2^-16); '
     'the C02 oracle then reads "up to rounding" as 2^-13 (1024 ulp32) instead of 1e-9, on scales that include the conditioning of the attached transform; '
-    'C03 / C13 have no f32 stream',
+    'C03 / C13 (thorough tier): f32 streams C03flat / C13flat tied the same way (model = f32 build, bit for bit except downstream of libm), CORRESPONDENCE ONLY: '
+    'the C03 / C13 exact-rational oracles do not judge f32 cases (their 1e-6 / 1e-9 margins are not calibrated for 24-bit rounding)',
 ]
 ASSUMPTIONS = {'C02': _ASSUME, 'C03': _ASSUME, 'C13': _ASSUME}
 THEOREMS = {
@@ -66,8 +67,9 @@ def streams(prop, tier):
     if tier == 'quick': return [Stream(n, 1500)]
     if tier == 'search': return [Stream(n, 8000)]
     out = [Stream(n, 16000), Stream(n, 6000, release=True)]
-    # the f32 build is in the quantifier of C02 only
-    if prop == 'C02': out.append(Stream(n, 1500, f32=True))
+    # the f32 build (thorough tier only): C02 with its calibrated f32 oracle; C03 / C13 correspondence only (their oracles
+    # return None on f32 cases: the 1e-6 / 1e-9 margins of these two oracles are not calibrated for 24-bit rounding)
+    out.append(Stream(n, 1500, f32=True))
     return out
 
 
@@ -484,6 +486,8 @@ def c13_pair(name, i1, i2, d1, d2, Ntrue):
 def oracle(prop, c, st):
     op = c['op']
     if op not in RAY_OPS or c.get('unbuildable'): return None
+    # f32 build: only the C02 oracle is calibrated for 24-bit rounding; C03 / C13 f32 cases are correspondence only
+    if prop != 'C02' and is_f32(c, st): return None
     set_precision(is_f32(c, st))
     prim, rays, out = dec(c, 'prim'), dec(c, 'rays'), dec(c, 'out')
     if not allfin(prim) or not allfin(rays): return None
